@@ -32,6 +32,10 @@ func newTwin(name, mode string, bases []string) *twin {
 		opts = append(opts, gofakes3.WithHostBucket(true))
 	case "bases":
 		opts = append(opts, gofakes3.WithHostBucketBase(bases...))
+	case "both":
+		// what cmd/gofakes3 passes when -hostbucket and -hostbucketbase are given: the bases win
+		opts = append(opts, gofakes3.WithHostBucket(true), gofakes3.WithHostBucketBase(bases...))
+		mode = "bases"
 	}
 	return &twin{name: name, mode: mode, bases: bases, rec: rec, h: newServer(be, opts...)}
 }
@@ -96,6 +100,12 @@ func runC16(tier string, seed uint64) {
 		newTwin("base-nested-short-first", "bases", []string{"example.com", "s3.example.com"}),
 		newTwin("base-nested-long-first", "bases", []string{"s3.example.com", "example.com"}),
 		newTwin("base-nested-short-host", "bases", []string{"s3.example.com", "example.com"}),
+		// both options at once (the documented precedence: the bases decide, everything else is path-style)
+		newTwin("both-base1", "both", bases[:1]),
+		newTwin("both-fallback-localhost", "both", bases),
+		newTwin("both-fallback-base-itself", "both", bases),
+		newTwin("both-fallback-multilabel", "both", bases),
+		newTwin("both-fallback-unrelated", "both", bases),
 		newTwin("path-extra-leading-slash", "none", nil),
 		newTwin("path-trailing-slash", "none", nil),
 	}
@@ -171,7 +181,13 @@ func runC16(tier string, seed uint64) {
 				host, path = l.bucket+".s3.example.com", l.hostStyle()
 			case "base-nested-short-host":
 				host, path = l.bucket+".example.com", l.hostStyle()
-			case "base1", "base2", "base-nested-short-first", "base-nested-long-first":
+			case "both-fallback-base-itself":
+				host = "s3.example.com"
+			case "both-fallback-multilabel":
+				host = "x." + l.bucket + ".s3.example.com"
+			case "both-fallback-unrelated":
+				host = l.bucket + ".elsewhere.org"
+			case "base1", "base2", "base-nested-short-first", "base-nested-long-first", "both-base1":
 				host, path = l.bucket+".s3.example.com", l.hostStyle()
 			case "base2-second":
 				host, path = l.bucket+".other.test:9000", l.hostStyle()
@@ -216,7 +232,7 @@ func runC16(tier string, seed uint64) {
 			nontrivial(t.name + "|" + l.method + "|" + l.query + "|" + l.bucket + "|" + l.key)
 		}
 	}
-	sample("each logical request (create/put/get/range/head/delete/list V1+V2/versions/location/versioning/multi-delete/copy/multipart initiate+part+list+abort/unknown methods over 2 buckets x 16 keys incl. spaces, UTF-8, dots, nesting, empty / '.' / '..' segments) is sent to 14 twin servers: path-style; host-bucket; host-bucket-base with one base, two bases (first and second base, configured with stray dots and a port), fallbacks (localhost, the base itself, multi-label prefix, unrelated host), two bases one of which is a suffix of the other (both orders, both hosts); path-style with an extra leading and a trailing slash")
+	sample("each logical request (create/put/get/range/head/delete/list V1+V2/versions/location/versioning/multi-delete/copy/multipart initiate+part+list+abort/unknown methods over 2 buckets x 16 keys incl. spaces, UTF-8, dots, nesting, empty / '.' / '..' segments) is sent to 19 twin servers: path-style; host-bucket; host-bucket-base with one base, two bases (first and second base, configured with stray dots and a port), fallbacks (localhost, the base itself, multi-label prefix, unrelated host), two bases one of which is a suffix of the other (both orders, both hosts), host-bucket and host-bucket-base configured together (base host and every fallback); path-style with an extra leading and a trailing slash")
 }
 
 func uniq(xs []string, skip bool) []string {
